@@ -123,6 +123,17 @@ def soilNext (cohorts : List Int) : List Int :=
 
 /-! ### Overpopulation -/
 
+/-- `SoilPool::disperser_to`: one disperser is stored in the youngest cohort iff the tester
+    (uniform draw, or 1 - fixed probability) is below the weather coefficient. -/
+def soilDisperserTo (cohorts : List Int) (w : Rat) (stochastic : Bool) (pEst u : Rat) : List Int :=
+  if (if stochastic then u else 1 - pEst) < w then addLast cohorts 1 else cohorts
+
+/-- `SoilPool::dispersers_from` with deterministic release: `floor (weather * stored)`. -/
+def soilReleaseDet (cohorts : List Int) (w : Rat) : Int := rfloor (w * sumL cohorts)
+
+/-- The cohorts after releasing according to `draw` (the result of draw_n_from_cohorts). -/
+def soilRelease (cohorts : List Int) (draw : List Int) : List Int := subL cohorts draw
+
 /-- The overpopulation rule at one cell: at least two infected hosts and
     infected / (susceptible + infected) >= threshold. -/
 def departs (threshold : Rat) (c : Cell) : Bool :=
